@@ -1,6 +1,7 @@
 """gen_instantiate — regenerate lean/W2c2Verif/Gen/Instantiate.lean from /repo/w2c2/c.c.
 
-Extracted as DATA (an unexpected shape raises ExtractFail = broken tie):
+Extracted as DATA, on the normal form of tools/extract/cnorm.py (spelling of conditions, local names, temporaries, statement forms are
+free; an unexpected shape raises ExtractFail = broken tie):
   * the ordered sequence of initialisation steps that `wasmCWriteInstantiateFunction` and
     `wasmCWriteNewChildFunction` emit into `<module>Instantiate` / `<module>NewChild`
     (InitImports, InitMemories, InitTables, InitGlobals, call of the start function) and the guard under
@@ -20,14 +21,6 @@ from cfront import ExtractFail
 
 GEN_NAME = "Instantiate"
 
-ATOMS = {
-    "module->memories.count>0": "memDefined", "memoryCount>0": "memDefined",
-    "module->dataSegments.count>0": "hasData",
-    "module->tables.count>0": "tableDefined", "tableCount>0": "tableDefined",
-    "module->elementSegments.count>0": "hasElems", "elementSegmentCount>0": "hasElems",
-    "module->globals.count>0": "globalsDefined", "globalCount>0": "globalsDefined",
-    "module->hasStartFunction": "hasStart",
-}
 STEP_OF = [("%sInitImports(", "imports"), ("%sInitMemories(", "memories"), ("%sInitTables(", "tables"), ("%sInitGlobals(", "globals")]
 BOOKKEEPING = ("common.funcExports", "common.resolveImports", "common.newChild", "Instance* child = (", "return child;",
                "Instantiate(%sInstance* i", "NewChild(%sInstance* self)", "}\\n\\n")
@@ -65,85 +58,21 @@ def function_body(src, name, path):
     raise ExtractFail(path, "unbalanced braces in %s" % name)
 
 
-def parse_guard(cond, where):
+ATOMS_N = {"0<module->memories.count": "memDefined", "0<module->dataSegments.count": "hasData", "0<module->tables.count": "tableDefined",
+           "0<module->elementSegments.count": "hasElems", "0<module->globals.count": "globalsDefined", "module->hasStartFunction": "hasStart"}
+
+
+def parse_guard(c, where):
+    """normal-form condition (cnorm) -> list of module-shape atoms (a disjunction)"""
+    parts = [x for x, pos in c[1]] if isinstance(c, tuple) and c[0] == "or" and all(pos for _, pos in c[1]) else ([c] if isinstance(c, str) else None)
+    if parts is None:
+        raise ExtractFail(where, "guard %r is not a disjunction of module-shape tests" % (c,))
     atoms = []
-    for part in cond.split("||"):
-        key = re.sub(r"\s+", "", part)
-        if key not in ATOMS:
-            raise ExtractFail(where, "unknown guard atom `%s`" % part.strip())
-        atoms.append(ATOMS[key])
+    for part in parts:
+        if part not in ATOMS_N:
+            raise ExtractFail(where, "unknown guard atom `%s`" % (part,))
+        atoms.append(ATOMS_N[part])
     return atoms
-
-
-def split_statements(body, where):
-    """top-level statements: ('if', cond, inner) | ('stmt', text)"""
-    out = []
-    k = 0
-    n = len(body)
-    while k < n:
-        if body[k].isspace():
-            k += 1
-            continue
-        m = re.match(r"if\s*\(", body[k:])
-        if m:
-            j = k + m.end()
-            depth = 1
-            while depth:
-                depth += {"(": 1, ")": -1}.get(body[j], 0)
-                j += 1
-            cond = body[k + m.end():j - 1]
-            b = body.index("{", j)
-            depth = 0
-            e = b
-            in_str = False
-            while True:
-                c = body[e]
-                if in_str:
-                    if c == "\\":
-                        e += 1
-                    elif c == '"':
-                        in_str = False
-                elif c == '"':
-                    in_str = True
-                elif c == "{":
-                    depth += 1
-                elif c == "}":
-                    depth -= 1
-                    if depth == 0:
-                        break
-                e += 1
-            out.append(("if", cond, body[b + 1:e]))
-            k = e + 1
-            if re.match(r"\s*else", body[k:]):
-                raise ExtractFail(where, "unexpected else")
-            continue
-        # plain statement up to `;` outside strings/parens
-        j = k
-        depth = 0
-        in_str = False
-        while j < n:
-            c = body[j]
-            if in_str:
-                if c == "\\":
-                    j += 1
-                elif c == '"':
-                    in_str = False
-            elif c == '"':
-                in_str = True
-            elif c in "({":
-                depth += 1
-            elif c in ")}":
-                depth -= 1
-            elif c == ";" and depth == 0:
-                break
-            j += 1
-        out.append(("stmt", body[k:j].strip()))
-        k = j + 1
-    return out
-
-
-def is_pretty(st):
-    return st[0] == "if" and re.sub(r"\s+", "", st[1]) == "pretty"
 
 
 ARG_RE = {"imports": r"%sInitImports\(([^()]*)\);\\n", "memories": r"%sInitMemories\(([^()]*)\);\\n", "tables": r"%sInitTables\(([^()]*)\);\\n",
@@ -158,37 +87,36 @@ def record_args(fname, step, lits, where):
     CALL_ARGS[(fname, step)] = [a.strip() for a in m.group(1).split(",")]
 
 
-def classify(stmts, where, fname=None):
-    """[(step, None)] for emitted text inside one guard / at top level"""
+def classify(nodes, where, fname=None):
+    """steps emitted by a list of normal-form nodes (inside one guard / at top level)"""
     steps = []
     pending_start = False
-    for st in stmts:
-        if is_pretty(st):
+    for nd in nodes:
+        if nd[0] == "if" and nd[1] == "pretty":
+            if nd[3] or any(x != ("do", "fputs(indentation,file)") for x in nd[2]):
+                raise ExtractFail(where, "`if (pretty)` emits more than indentation")
             continue
-        if st[0] == "if":
-            raise ExtractFail(where, "nested guard `%s`" % st[1].strip())
-        t = st[1]
-        if not t:
-            continue
+        if nd[0] != "do":
+            raise ExtractFail(where, "nested `%s` %r" % (nd[0], nd[1] if len(nd) > 1 else ""))
+        t = nd[1]
         if t.startswith("wasmCWriteFileFunctionUse(") and "module->startFunctionIndex" in t:
             pending_start = True
             continue
-        m = re.match(r"(?:fprintf|fputs)\s*\(", t)
-        if not m:
+        if not re.match(r"(?:fprintf|fputs)\(", t):
             raise ExtractFail(where, "unexpected statement `%s`" % t[:60])
         lits = "".join(re.findall(r'"((?:[^"\\]|\\.)*)"', t))
         if pending_start:
-            if not re.fullmatch(r"\((?:i|child)\);\\n", lits):
+            if not re.fullmatch(r"\((?:i|child|self)\);\\n", lits):
                 raise ExtractFail(where, "start function call has an unexpected argument list `%s`" % lits)
             steps.append("start")
             record_args(fname, "start", lits, where)
             pending_start = False
             continue
-        hit = [s for k, s in STEP_OF if k in lits]
+        hit = [s_ for k, s_ in STEP_OF if k in lits]
         if hit:
             steps.append(hit[0])
             record_args(fname, hit[0], lits, where)
-        elif any(b in lits for b in BOOKKEEPING) or lits == "}\\n\\n":
+        elif any(b_ in lits for b_ in BOOKKEEPING) or lits == "}\\n\\n":
             continue
         else:
             raise ExtractFail(where, "unknown emitted text `%s`" % lits[:60])
@@ -198,20 +126,24 @@ def classify(stmts, where, fname=None):
 
 
 def steps_of(src, fname, path):
+    import cnorm
     body, line = function_body(src, fname, path)
     where = "%s:%d" % (path, line)
     out = []
-    for st in split_statements(body, where):
-        if is_pretty(st):
+    for nd in cnorm.normalize(body, where):
+        if nd[0] == "if" and nd[1] == "pretty":
+            classify([nd], where, fname)
             continue
-        if st[0] == "if":
-            g = parse_guard(st[1], where)
-            for s in classify(split_statements(st[2], where), where, fname):
-                out.append((g, s))
+        if nd[0] == "if":
+            if nd[3]:
+                raise ExtractFail(where, "unexpected else")
+            g = parse_guard(nd[1], where)
+            for s_ in classify(nd[2], where, fname):
+                out.append((g, s_))
         else:
-            for s in classify([st], where, fname):
-                out.append((["always"], s))
-    names = [s for _, s in out]
+            for s_ in classify([nd], where, fname):
+                out.append((["always"], s_))
+    names = [s_ for _, s_ in out]
     if sorted(set(names)) != sorted(names):
         raise ExtractFail(where, "a step is emitted twice: %r" % names)
     return out
@@ -219,40 +151,40 @@ def steps_of(src, fname, path):
 
 def definition_guard(src, fname, path):
     """guard of the outermost `if` that wraps the whole definition emitted by an Init* writer"""
+    import cnorm
     body, line = function_body(src, fname, path)
     where = "%s:%d" % (path, line)
-    sts = [s for s in split_statements(body, where) if not is_pretty(s)]
-    ifs = [s for s in sts if s[0] == "if"]
-    others = [s for s in sts if s[0] == "stmt" and re.match(r"(fprintf|fputs)\b", s[1])]
-    if len(ifs) != 1 or others:
+    nodes = cnorm.normalize(body, where)
+    ifs = [nd for nd in nodes if nd[0] == "if"]
+    others = [nd for nd in nodes if nd[0] == "do" and re.match(r"(fprintf|fputs)\(", nd[1])]
+    if len(ifs) != 1 or others or ifs[0][3]:
         raise ExtractFail(where, "%s: expected exactly one guarded definition" % fname)
     return parse_guard(ifs[0][1], where)
 
 
 def call_shape(src, path):
-    """which fields feed the allocation / LOAD_DATA calls"""
-    body, line = function_body(src, "wasmCWriteInitMemories", path)
-    where = "%s:%d" % (path, line)
-    flat = re.sub(r"\s+", " ", body)
-    m = re.search(r'" = wasmMemoryAllocate\(%u, %u, false\);\\n", ([\w.]+), ([\w.]+)', flat)
-    if not m or (m.group(1), m.group(2)) != ("memory.min", "memory.max"):
-        raise ExtractFail(where, "wasmMemoryAllocate call shape changed")
-    if not re.search(r'fputs\("LOAD_DATA\(", file\); wasmCWriteFileMemoryUse\( file, module, dataSegment\.memoryIndex, NULL, false \);', flat):
-        raise ExtractFail(where, "LOAD_DATA target memory is not dataSegment.memoryIndex")
-    if not re.search(r'wasmCWriteConstantExpr\(&stringBuilder, module, code\)', flat) or "const Buffer code = dataSegment.offset;" not in flat:
-        raise ExtractFail(where, "LOAD_DATA offset is not the segment's offset expression")
-    if not re.search(r'", %lu\);\\n", \(unsigned long\) dataSegmentLength', flat) or "dataSegmentLength = dataSegment.bytes.length" not in flat:
-        raise ExtractFail(where, "LOAD_DATA length is not the segment length")
-    if not re.search(r"if \(!?dataSegment\.passive\) \{", flat):      # the exact per-segment logic is regenerated by gen_initmem.py
-        raise ExtractFail(where, "passive segments are no longer distinguished")
-    tb, tl = function_body(src, "wasmCWriteInitTables", path)
-    tflat = re.sub(r"\s+", " ", tb)
-    if not re.search(r'fputs\("wasmTableAllocate\(", file\);.*?", %u, %u\);\\n", table\.min, table\.max', tflat):
-        raise ExtractFail("%s:%d" % (path, tl), "wasmTableAllocate call shape changed")
-    if 'fprintf(file, ".data[offset+%u]=(wasmFunc)", functionIndexIndex)' not in tflat or \
-            "wasmCWriteFileTableUse(file, module, elementSegment.tableIndex, false)" not in tflat or \
-            "functionIndex = elementSegment.functionIndices[functionIndexIndex]" not in tflat:
-        raise ExtractFail("%s:%d" % (path, tl), "element store shape changed")
+    """which fields feed the allocation / LOAD_DATA calls and the element stores: read by the loop extractors (gen_initmem,
+    gen_inittables), which raise ExtractFail on any other shape; here only that the pieces this model relies on are present"""
+    import gen_initmem
+    import gen_inittables
+    ml, sl = gen_initmem.init_memories_loops(src)
+    mem = [x for g, x in ml if ".memShared false" in g]
+    if [x for x in mem if x in (".emit .memMin", ".emit .memMax")] != [".emit .memMin", ".emit .memMax"]:
+        raise ExtractFail(path, "wasmMemoryAllocate call shape changed")
+    seg = [x for g, x in sl]
+    for need, why in ((".emit .segMemUse", "LOAD_DATA target memory is not dataSegment.memoryIndex"),
+                      (".emit .offsetExpr", "LOAD_DATA offset is not the segment's offset expression"),
+                      (".emit .segLen", "LOAD_DATA length is not the segment length")):
+        if need not in seg:
+            raise ExtractFail(path, why)
+    if not any(".segPassive false" in g for g, x in sl):
+        raise ExtractFail(path, "passive segments are no longer distinguished")
+    decl, tl, sh, el = gen_inittables.loops(src)
+    if [x for g, x in tl if x in (".tableMin", ".tableMax")] != [".tableMin", ".tableMax"]:
+        raise ExtractFail(path, "wasmTableAllocate call shape changed")
+    plain = [x for g, x in el if ".pretty true" not in g]
+    if ".position" not in plain or ".segTable" not in plain or ".funcRef" not in plain:
+        raise ExtractFail(path, "element store shape changed")
     return {"memAlloc": ["min", "max"], "tableAlloc": ["min", "max"]}
 
 
